@@ -49,6 +49,13 @@ def douglas_case(case):
             if not np.array_equal(model.predict_proba(X2), base):
                 v.append(violation("masked_feature_changes_predictions", {"feature": f, "delta": delta}, **where))
                 break
+    # integer-valued points: the dtype of the array they come in does not change their cell nor their prediction
+    Qi = np.array(list(itertools.product(*[[-3, -1, 0, 1, 2, 4] if f in used else [1] for f in range(d)])), dtype=np.int64)[:200]
+    pf = model.predict_proba(Qi.astype(float))
+    for dt in (np.int64, np.int32):
+        if not np.allclose(model.predict_proba(Qi.astype(dt)), pf, rtol=1e-12, atol=1e-14):
+            v.append(violation("prediction_depends_on_the_dtype_of_the_query", {"dtype": str(np.dtype(dt))}, **where))
+            break
     n_orders, cells_probed = 0, 0
     reference_cells = None
     for orders in itertools.product(*[list(itertools.permutations(range(n_cuts))) for _ in used]):
